@@ -57,7 +57,7 @@ func resolveGensign(w *World) *gensignModel {
 		return m
 	}
 	one := func(method, role string) *ssa.Call {
-		cs := invokeOf(m.Run, method)
+		cs := w.invokeOfDeep(m.Run, method)
 		if len(cs) != 1 {
 			m.problems = append(m.problems, role+" (found "+itoa(len(cs))+" invoke sites in Run)")
 			return nil
@@ -184,7 +184,7 @@ func runC01(c *Ctx) {
 	var handlersParam *ssa.Parameter
 	if ld, ok := authRecv.(*ssa.UnOp); ok && ld.Op == token.MUL {
 		if ia, ok := ld.X.(*ssa.IndexAddr); ok {
-			if p, ok := ia.X.(*ssa.Parameter); ok && isForwardRangeIndex(ia.Index) {
+			if p, ok := w.resolveUp(run, ia.X).(*ssa.Parameter); ok && p.Parent() == run && isForwardRangeIndex(ia.Index) {
 				okRange = true
 				handlersParam = p
 			}
@@ -219,7 +219,7 @@ func runC01(c *Ctx) {
 			"a handler can reach Generate without the must-fact that its own Authenticate returned nil: "+w.Short(lf.Val))
 	}
 	// success edge leaves the loop
-	for _, b := range run.Blocks {
+	for _, b := range m.AuthCall.Parent().Blocks {
 		if isNil, known := f.KnownNil(b, m.AuthCall); known && isNil && len(b.Instrs) > 0 {
 			if b == m.AuthCall.Block() {
 				continue
@@ -231,9 +231,21 @@ func runC01(c *Ctx) {
 			}
 		}
 	}
+	// when the selection loop lives in a helper, the helper itself is entered once
+	for g := m.AuthCall.Parent(); g != run; {
+		sites := w.sitesIn(run, g)
+		if len(sites) != 1 {
+			c.Bad("R1.select", "Run|first successful handler wins", w.FnPos(g), "the handler selection "+shortFn(g)+" is entered from "+itoa(len(sites))+" places of Run")
+			break
+		}
+		if ReachableAvoiding(sites[0], nil)(sites[0]) {
+			c.Bad("R1.select", "Run|first successful handler wins", w.Pos(sites[0].Pos()), "the handler selection can run again after it returned (a later handler may replace the first one)")
+		}
+		g = sites[0].Parent()
+	}
 	// sign / add dominated by successful generate
 	for name, call := range map[string]*ssa.Call{"Signer.Sign": m.SignCall, "AddCertsToAgent": m.AddCall} {
-		okDom := InstrDominates(m.GenCall, call)
+		okDom := w.DeepDominates(run, m.GenCall, call)
 		isNil, known := f.KnownNil(call.Block(), m.GenErr)
 		c.Check(okDom && known && isNil, "R1.select", "Run|"+name+" only after successful Generate", w.Pos(call.Pos()), "dominated by Generate with must-fact err == nil", name+" is reachable without a successful Generate")
 	}
@@ -353,7 +365,7 @@ func runC01(c *Ctx) {
 			c.Check(okArg, "R2.authgate", hn+"|challenge on the request's parameters", w.Pos(cc.Pos()), "the authenticated parameters are the ones challenged", "the challenge function is not given Authenticate's parameter")
 		}
 		for _, vf := range vfs {
-			checkChallenge(c, vf, true)
+			checkChallenge(c, vf, true, auth)
 		}
 		// R4: no agent mutation
 		reach := w.ReachableRepo([]*ssa.Function{auth}, true)
@@ -383,7 +395,7 @@ func runC01(c *Ctx) {
 	}
 	c.Floor("R2.authgate", nHandlers, 1, "handler implementations")
 	if sib := w.Func("agent/ssh", "ChallengeSSHAgent"); sib != nil {
-		checkChallenge(c, sib, false)
+		checkChallenge(c, sib, false, nil)
 	}
 	// Signer.Sign call sites
 	nSign := 0
@@ -391,7 +403,7 @@ func runC01(c *Ctx) {
 		for _, cv := range invokeOf(fn, "Sign") {
 			if strings.HasSuffix(cv.Call.Method.FullName(), "csr.Signer).Sign") {
 				nSign++
-				c.Check(fn == run, "R4.noeffects", "csr.Signer.Sign call site in "+shortFn(fn), w.Pos(cv.Pos()), "invoked from gensign.Run", "a signing request is sent to the CA outside gensign.Run (no authentication gate there)")
+				c.Check(w.onlyVia(run, fn, 0), "R4.noeffects", "csr.Signer.Sign call site in "+shortFn(fn), w.Pos(cv.Pos()), "invoked from gensign.Run", "a signing request is sent to the CA outside gensign.Run (no authentication gate there)")
 			}
 		}
 	}
@@ -399,7 +411,7 @@ func runC01(c *Ctx) {
 }
 
 // checkChallenge verifies the construction of one challenge function.
-func checkChallenge(c *Ctx, fn *ssa.Function, keyFromFile bool) {
+func checkChallenge(c *Ctx, fn *ssa.Function, keyFromFile bool, auth *ssa.Function) {
 	w := c.w
 	c.Saw(fn)
 	name := shortFn(fn)
@@ -530,6 +542,29 @@ func checkChallenge(c *Ctx, fn *ssa.Function, keyFromFile bool) {
 	if !keyFromFile {
 		return
 	}
+	checkKeyProvenance(c, name, fn, pub, sign, auth, 0)
+}
+
+// checkKeyProvenance: the verifying key pub, used at instruction use of fn, is parsed from the registered key file.
+// When the challenge function receives the key as a parameter, the obligation moves to each of its call sites on
+// the Authenticate tree.
+func checkKeyProvenance(c *Ctx, name string, fn *ssa.Function, pub ssa.Value, use ssa.Instruction, auth *ssa.Function, depth int) {
+	w := c.w
+	if p, isParam := strip(pub).(*ssa.Parameter); isParam && p.Parent() == fn && auth != nil && depth < 3 {
+		sites := w.sitesIn(auth, fn)
+		if len(sites) == 0 {
+			c.Bad("R3.challenge", name+"|key parsed from the registered key file", w.FnPos(fn), "the verifying key is a parameter and no call site on the Authenticate tree supplies it")
+			return
+		}
+		for _, s := range sites {
+			args := s.Common().Args
+			if idx := paramIndex(p); idx >= 0 && idx < len(args) {
+				checkKeyProvenance(c, name+" called from "+shortFn(s.Parent()), s.Parent(), args[idx], s, auth, depth+1)
+			}
+		}
+		return
+	}
+	ver, sign := use, use
 	// key provenance
 	pk, ok := strip(pub).(*ssa.Extract)
 	var parse *ssa.Call
@@ -577,6 +612,9 @@ func checkChallenge(c *Ctx, fn *ssa.Function, keyFromFile bool) {
 // rootsInFrame translates origins expressed over the parameters of helper g into the frame of top, following the
 // unique static call chain top -> ... -> g.
 func (w *World) rootsInFrame(top, g *ssa.Function, rs rootSet) rootSet {
+	if w.focus == top {
+		return rs // Origins already resolved helper parameters into the focus frame
+	}
 	for hop := 0; hop < 6 && g != top; hop++ {
 		var site *ssa.Call
 		n := 0
